@@ -9,7 +9,7 @@ LOCKSPECS = [
     LockSpec(RT, {"sequence_number": "sequence_number_lock", "_cbf_buffer": "_cbf_lock", "_ls_timers": "_ls_lock",
                   "_ls_retransmit_counters": "_ls_lock", "_ls_packet_buffers": "_ls_lock",
                   "ego_position_vector": "ego_position_vector_lock"},
-             atomic_read_ok=["ego_position_vector"], props=["C15"], init_phase=["setup_gn_address"],
+             atomic_read_ok=["ego_position_vector"], props=["C15", "C04"], init_phase=["setup_gn_address"],
              guarded_foreign={"ls_pending": "_ls_lock"},
              note="ego_position_vector holds an immutable (frozen) record: writes are locked, a single unlocked read yields a vector that was the ego position at some instant"),
     LockSpec(f"{LT}:LocationTable", {"loc_t": "loc_t_lock"}, props=["C15"]),
